@@ -375,6 +375,12 @@ func restoresGhost(spec *UnitSpec, g string) bool {
 }
 
 func (u *Unit) specMods(spec *UnitSpec, m *modSet) {
+	if len(spec.Retains) > 0 {
+		m.ghosts[ghRetained] = true
+	}
+	if len(spec.Consumes) > 0 {
+		m.ghosts[ghConsumed] = true
+	}
 	for _, it := range spec.Modifies {
 		if strings.HasPrefix(it, "$") && !restoresGhost(spec, it) {
 			m.ghosts[it] = true
